@@ -445,9 +445,10 @@ func partC04H(a *hcli.Args, rep *report.Report, univName string, u *schema.Unive
 				for i := 0; i <= len(body); i++ {
 					mb := append([]byte{}, body[:i]...)
 					_, perr := refjson.ParseStrict(mb)
-					// a non-empty strict prefix that is not a JSON document is unambiguously malformed; other
+					// a strict prefix (the empty one included: a method that reads its body needs a document) that is not
+					// a JSON document is unambiguously malformed; other
 					// deviations from the JSON grammar that the library's parser tolerates are not judged
-					send("body-truncated", joinRaw(line, headers, mb), perr != nil && i > 0 && i < len(body) && readsBody)
+					send("body-truncated", joinRaw(line, headers, mb), perr != nil && i < len(body) && readsBody)
 					if i < len(body) {
 						del := append(append([]byte{}, body[:i]...), body[i+1:]...)
 						send("body-byte-deleted", joinRaw(line, headers, del), false)
